@@ -168,6 +168,12 @@ def l2(rep: Report, tier: str) -> None:
     common.tlc_must_pass(res, "Param_MC")
     rep.add_tlc(res)
     rep.extra["l2"] = {"histories_states": res.distinct, "maxlen": 4}
+    ind = common.run_tlc("Param", "Param_Ind.cfg", timeout=300, tag="paramind")
+    common.tlc_must_pass(ind, "Param inductive invariant (unbounded histories)")
+    rep.add_tlc(ind, with_cov=False)
+    indl = common.run_tlc("Param", "Param_Ind_legacy.cfg", timeout=300, tag="paramindleg")
+    common.tlc_must_fail(indl, "Param inductive invariant with Legacy=copy_drops_hooks", "IndInv")
+    rep.extra["inductive_invariant"] = {"invariant": "TypeOK /\\ TagsSurvive /\\ HooksInstalled", "initial_states": 144, "holds": True, "refuted_with_legacy": True}
     res = common.run_tlc("Param", "Param_MC_legacy.cfg", timeout=300, tag="paramleg")
     common.tlc_must_fail(res, "Param Legacy=copy_drops_hooks", "TagsSurvive")
     rep.extra["l2_refuted_deviations"] = [{"legacy": "copy_drops_hooks", "violated": res.violated_invariant, "counterexample_depth": res.depth}]
